@@ -186,6 +186,21 @@ func valueOps(r *core.Run) {
 		}
 		r.Do("C04.utf8 " + core.Hex(b))
 	}
+	// serialized containers through the bytea text decoder (the binary-format path of a column without
+	// data type, Lean `decodeEscaped_protect`): containers are not valid UTF-8, yet model and code agree –
+	// both stop at the control byte in the length field – and the outcome is ErrDecodeOctalString
+	for i := 0; i < r.N(30, 600); i++ {
+		kv := env.NewKV(rd, 1, 1)
+		m := rd.Bytes(1 + rd.Intn(300))
+		kind := core.Pick(rd, []string{"struct", "block"})
+		r.Begin("esc-container-"+core.Hex(m[:min(len(m), 12)]), true, "case:codec-container")
+		p, ok := env.Protect(r, kind, kv, m)
+		if !ok {
+			continue
+		}
+		out := r.Do("C04.escaped " + core.Hex(p))
+		r.Check(out == "octalerr", "container-decoded-as-bytea-text", fmt.Sprintf("DecodeEscaped accepted a serialized container (%s): the binary path of an untyped column would hand the detector other bytes than stored", out))
+	}
 }
 
 func hasC1(b []byte) bool {
